@@ -28,12 +28,14 @@ BOUNDS = {"lut": "histories of <= 4 LUT operations (quick and thorough) x {256 B
 
 
 def ENCODED():
+    import ethosu.vela.npu_performance  # noqa (import cycle)
+    import ethosu.vela.scheduler as sch
     import ethosu.vela.lut as lut
     import ethosu.vela.high_level_command_stream_generator as gen
     import ethosu.vela.live_range as lr
     import ethosu.vela.weight_compressor as wc
 
-    return [wc.encode_weight_and_scale_tensor, lut.optimize_high_level_cmd_stream, lut.LUTState.put, lut.LUTState.find_best_address, lut.LUTState.get_equivalent, lut.get_lut_index,
+    return [sch.Scheduler.propose_weight_buffering, wc.encode_weight_and_scale_tensor, lut.optimize_high_level_cmd_stream, lut.LUTState.put, lut.LUTState.find_best_address, lut.LUTState.get_equivalent, lut.get_lut_index,
             gen.generate_high_level_commands_for_sched_op, lr.extract_live_ranges_from_schedule]
 
 
@@ -309,7 +311,15 @@ def wbuf_sizes(V, **params):
     return c08.encode(V, **params)
 
 
-FUNCS = {"lut": lut, "wbuf": wbuf, "rolling": rolling, "lr_rolling": lr_rolling, "build_twice": build_twice, "memcpy": memcpy, "wbuf_sizes": wbuf_sizes}
+def buffering(V, **params):
+    """every weight depth slice fits the SRAM buffer the command generator DMAs it into (harness/c08.py buffering: the real
+    Scheduler.propose_weight_buffering over symbolic slice sizes) - an overrun writes outside the buffer's extent, over a neighbouring tensor"""
+    from harness import c08
+
+    return c08.buffering(V, **params)
+
+
+FUNCS = {"buffering": buffering, "lut": lut, "wbuf": wbuf, "rolling": rolling, "lr_rolling": lr_rolling, "build_twice": build_twice, "memcpy": memcpy, "wbuf_sizes": wbuf_sizes}
 
 
 def instances(tier, seed):
@@ -335,6 +345,8 @@ def instances(tier, seed):
     for inst in c08.instances(tier, seed):
         if inst["fn"] == "encode":
             out.append(dict(key="wbuf_sizes/" + inst["key"], fn="wbuf_sizes", params=inst["params"], weight=inst.get("weight", 1)))
+        if inst["fn"] == "buffering":
+            out.append(dict(key=inst["key"], fn="buffering", params=inst["params"]))
     for inst in c10.instances(tier, seed):
         if inst["fn"] == "cascade":
             out.append(dict(key="rolling/" + inst["key"], fn="rolling", params=inst["params"], weight=inst.get("weight", 1)))
